@@ -108,13 +108,14 @@ func combineSigns(expr []token) []token {
 	// please forgive me for this lol
 	for i := 0; i < len(expr); i++ {
 		if lastOut.typ == tokSymbol {
+			// the run is negative when it holds an odd number of '-'
 			negativeFound := false
 			for ; i < len(expr); i++ {
 				if !(expr[i].val == "-" || expr[i].val == "+") {
 					break
 				}
 				if expr[i].val == "-" {
-					negativeFound = true
+					negativeFound = !negativeFound
 				}
 			}
 			if negativeFound {
